@@ -9,4 +9,23 @@ def run(ctx):
 
 
 def extra(ctx, res):
-    pass
+    """C09.G1 (for all derive inputs): the fields are put 'non-skipped first' with the *stable* sort_by_key, so that the
+    accepted-keys list handed to UnknownKey / the user's function keeps the declaration order for any number of fields."""
+    from analysis import View
+    from lin import Finding
+    crate = ctx.libcrate("deserr_internal")
+    nf = None
+    for b in crate.bodies:
+        if b.path == "parse_type::NamedFieldsInfo::parse":
+            nf = b
+    fs = []
+    if nf is None:
+        fs.append(Finding("C09.G1", "NamedFieldsInfo::parse", "not found", ""))
+    else:
+        v = View(nf)
+        sorts = [(bb, c) for bb, c in v.calls() if c.fn is not None and c.name and c.name.startswith("sort")]
+        for bb, c in sorts:
+            if c.name not in ("sort_by_key", "sort_by", "sort", "sort_by_cached_key"):
+                fs.append(Finding("C09.G1", nf.path, "fields are reordered with %s, which does not keep the declaration order of the non-skipped fields (accepted list of unknown-key reports)" % c.name,
+                                  v.blocks[bb]["term"].get("at", "")))
+    res.add("C09.G1", 1, fs)
